@@ -176,6 +176,22 @@ CHECKS = {
              "Four documented mix-in schemas that reference Start without defining it are listed as known findings.",
         technique="runtime exploration: BFS with the real machine as transition function + cone-of-influence BFS + random-walk validation, invariant oracle on every reached set",
         engine="registry", design_ref="5/C19"),
+    "C17": dict(
+        level="exploration",
+        text="PRNG schemas (2..6 states, relations, Multi, Auto) are driven by PRNG mutation histories on a handler-less machine under PRNG tracking configurations "
+             "(Called/Changed allow- and block-lists of one or several states, TrackRejected, tracked subsets, MaxRecords 1..50, StoreTransitions, QueueBatch 1..100). An independent "
+             "tracer on the same machine records every transition; the reference log is the documented matching rule applied to it. The in-memory backend is judged exactly "
+             "(one record per matching transition, in order, tracked times equal to the machine's time, count = min(matching, MaxRecords)); bbolt, badger and gorm/sqlite are judged against "
+             "the same reference after Sync and a settled record count (no record lost, duplicated, reordered or invented; the newest min(matching, MaxRecords) kept; retained count within a "
+             "stated multiple of MaxRecords after rotation had three further batches to act). FindLatest with Active/Inactive/Activated/Deactivated, two-state and state+range queries, "
+             "MTimeSum and HTime ranges and the *Between helpers are compared record by record with a reference evaluator over the backend's own list (three-valued where the godoc leaves a "
+             "choice). Persistent stores are also stopped and reopened for the same machine (paced: one write in flight; burst), and Machine.Export/Import round-trips are checked for ticks, "
+             "active states and MachineTick+1 under shuffled verified state orders.",
+        note="The matching rule is asserted for one list at a time (both lists set: integrity only). Queries issued while a batch is pending are not judged (bbolt/badger answer from the "
+             "newest ID, which is not stored yet). The crash tier (SIGKILL at PRNG progress points) of the design was not built; reopen-after-clean-stop is. Eight known findings, all in "
+             "the persistent backends (gorm never rotates; out-of-order machine-record writes in bursts; gorm's flags right after a reopen).",
+        technique="runtime monitor: independent reference tracer + reference log/query evaluator, differential across four backends, reopen scenarios",
+        engine="components", design_ref="5/C17"),
     "C20": dict(
         level="exploration",
         text="reflect enumerates every exported method of *Machine, *Event, *Transition, *Mutation, S, Time, *TimeIndex, Clock, Schema and State (a 'surface' case reports how many, "
@@ -239,6 +255,8 @@ man = {
          "kind_free_text": "handler-position enumeration + fault scripts (panic, acknowledged stall, deadline stall, repeated and nested faults), liveness probe"},
         {"name": "rpcloop", "path": "harness/rpcloop", "serves_properties": ["C09", "C10", "C18"],
          "kind_free_text": "live Server+Client pairs over a harness-controlled loopback proxy (byte counters, cut, stall, refuse), verif-tagged encoder/decoder accessors"},
+        {"name": "components", "path": "harness/cmd/{c17,c18,c15,c16}", "serves_properties": ["C15", "C16", "C17", "C18"],
+         "kind_free_text": "per-component drivers: history reference log and query evaluator over four backends; pipes proxy; supervisor scenarios; headless debugger"},
         {"name": "registry", "path": "harness/{registry,cmd/c19gen}", "serves_properties": ["C19", "C20"],
          "kind_free_text": "static scan of /repo -> generated Go registry of shipped schemas; BFS/cone explorer"},
     ],
